@@ -2,7 +2,7 @@
     Statements only; proofs in Run/RunProofs.v, Run/RunCounters.v, Match/CoreProofs.v. *)
 From Coq Require Import ZArith List Bool.
 From V Require Import Csv.CsvModel Data.DataModel Scan.ScanModel Scan.ScanSpec Run.RunLoop Run.RunProofs Run.RunCounters
-  Run.RunFold Match.Adjudicate Match.Core Match.CoreProofs Match.AggProofs Match.CoreRun.
+  Run.RunFold Match.Adjudicate Match.Core Match.CoreProofs Match.AggProofs Match.CoreRun Match.CountIfRun.
 Import ListNotations.
 Open Scope Z_scope.
 
@@ -238,6 +238,37 @@ Proof.
   split; [|split; [vm_compute; auto|vm_compute; reflexivity]].
   exists [CB (BExists 0)], [CAgg (First 7 1); CAct (Agg (AssignK 5 [116] NCount))].
   split; [reflexivity|]. split; repeat constructor; unfold writes_comp; cbn [comp_agg writes]; discriminate.
+Qed.
+
+(** count.d(cond) against its specification: in ANY CORE csvpath that has '@v = count.nm(cond)' once at top level (cond over the
+    line alone) and names the dictionary nowhere else, after a run over ANY file with ANY scan the entry True / False holds the
+    number of SCANNED lines on which cond holds / does not hold — whatever the other components decide about those lines: the
+    assignment is not gated on the line matching — and the two entries add up to the number of scanned lines *)
+Theorem C03_count_if_counts_scanned : forall q blanks AND sh (cf : cfg) E cs (recs : list (line ustring)) x0 v nm c key (s0 : cst),
+  wf sh -> parse false (ast_of sh) = Some (scanner cf) -> q_scan cf = false -> end_line cf = Some E ->
+  end_of ustring recs = Some E -> will_run cf = true -> count_if_once v nm c cs -> bl c = true ->
+  num_of (dget (x mx (st ustring mx (run_from ustring mx (core_m q blanks AND cs (Some E)) cf (rs0 mx x0) None recs))) nm key) =
+  num_of (dget x0 nm key) + count_answers q blanks c key s0 (filter (want ustring sh) (number 0 recs)).
+Proof. exact count_if_counts_scanned. Qed.
+Print Assumptions C03_count_if_counts_scanned.
+Theorem C03_count_if_total : forall q blanks AND sh (cf : cfg) E cs (recs : list (line ustring)) x0 v nm c (s0 : cst),
+  wf sh -> parse false (ast_of sh) = Some (scanner cf) -> q_scan cf = false -> end_line cf = Some E ->
+  end_of ustring recs = Some E -> will_run cf = true -> count_if_once v nm c cs -> bl c = true ->
+  dget x0 nm py_true = None -> dget x0 nm py_false = None ->
+  let fin := x mx (st ustring mx (run_from ustring mx (core_m q blanks AND cs (Some E)) cf (rs0 mx x0) None recs)) in
+  num_of (dget fin nm py_true) + num_of (dget fin nm py_false) = Z.of_nat (length (filter (want ustring sh) (number 0 recs))).
+Proof. exact count_if_total. Qed.
+Print Assumptions C03_count_if_total.
+Example C03_count_if_nonvacuous :
+  (* [ @v1 = count.d2(gt(#0, 2))  #1 == "a" ] over 3, 5, 1 (column 0) / a, b, a (column 1), scan 1*: 2 lines answer True, 1 False; 2 lines match *)
+  let prog := [CAct (Agg (CountIf 1 2 (BCmp Gt (NHdr 0) (NLit 2)))); CB (BEqEqS (SHdr 1) (SLit [97]))] in
+  let rows := [[[110]; [116]]; [[51]; [97]]; [[53]; [98]]; [[49]; [97]]] in
+  let o := core_run clean true false (mkSc [] (Some 1) None true) prog rows in
+  dicts (x mx (st ustring mx o)) = [(2, [(py_true, VI 2); (py_false, VI 1)])] /\ vars (x mx (st ustring mx o)) = [(1, VI 1)] /\
+  match_count mx (st ustring mx o) = 2 /\ count_if_once 1 2 (BCmp Gt (NHdr 0) (NLit 2)) prog /\ bl (BCmp Gt (NHdr 0) (NLit 2)) = true.
+Proof.
+  cbn zeta. split; [vm_compute; reflexivity|]. split; [vm_compute; reflexivity|]. split; [vm_compute; reflexivity|]. split; [|reflexivity].
+  exists [], [CB (BEqEqS (SHdr 1) (SLit [97]))]. split; [reflexivity|]. split; repeat constructor; unfold writes_comp; cbn [comp_agg writes]; discriminate.
 Qed.
 
 Example C03_bookkeeping_nonvacuous :
